@@ -15,19 +15,22 @@ Max2(a, b) == IF a > b THEN a ELSE b
 
 NoObj == [vs |-> "none", bs |-> "none", roots |-> 0, wroots |-> 0, s |-> <<>>, p |-> <<>>, w |-> <<>>,
           armed |-> "yes", blk |-> 0, size |-> 0, align |-> 0, off |-> -1, mblk |-> 0, mlive |-> FALSE,
-          slack |-> 0, infl |-> 0, winfl |-> 0, tainted |-> FALSE, cyc |-> FALSE]
+          slack |-> 0, infl |-> 0, winfl |-> 0, tainted |-> FALSE, cyc |-> FALSE, caps |-> {}, ismap |-> FALSE]
 
 MonInit == [cfg |-> [fin |-> TRUE, weak |-> TRUE, dbg |-> TRUE, auto |-> FALSE, clean |-> FALSE, ns |-> 2, np |-> 0, nw |-> 0, run |-> 0],
             objs |-> <<>>, stack |-> <<>>, seen |-> {}, viol |-> <<>>, log |-> <<>>, n |-> 0,
             bytes |-> 0, blocks |-> <<>>, faulted |-> FALSE, resur |-> FALSE, x |-> 0, lastbf |-> 0,
-            acfg |-> [auto |-> FALSE, pn |-> 1, pd |-> 10, bt |-> 0], big |-> FALSE]
+            acfg |-> [auto |-> FALSE, pn |-> 1, pd |-> 10, bt |-> 0], big |-> FALSE,
+            acts |-> <<>>, cgone |-> {}]
 
 Ids(m) == DOMAIN m.objs
 Obj(m, o) == m.objs[o]
 Known(m, o) == o \in Ids(m)
 
 \* ------------------------------------------------------------------ ghost heap
-Ptrs(ob) == (Rng(ob.s) \cup Rng(ob.p)) \ {0}
+\* Ccs captured by the cleaning actions of an object's Cleaner are untraced pointers owned by it
+CapTargets(ob) == {pr[2] : pr \in ob.caps}
+Ptrs(ob) == ((Rng(ob.s) \cup Rng(ob.p)) \ {0}) \cup CapTargets(ob)
 Holds(m, x) == x \in Ids(m) /\ m.objs[x].vs \in {"live", "moved"}
 RootSet(m) == {o \in Ids(m) : m.objs[o].roots > 0 \/ m.objs[o].vs = "moved"}
 RECURSIVE Close(_, _)
@@ -41,7 +44,7 @@ ReachLive(m) == {o \in Reach(m) : o \in Ids(m) => m.objs[o].vs # "moved"}
 CountIn(sq, o) == Cardinality({i \in DOMAIN sq : sq[i] = o})
 RECURSIVE SumOver(_, _, _)
 SumOver(m, S, o) == IF S = {} THEN 0 ELSE LET a == CHOOSE x \in S : TRUE IN
-                      CountIn(m.objs[a].s, o) + CountIn(m.objs[a].p, o) + SumOver(m, S \ {a}, o)
+                      CountIn(m.objs[a].s, o) + CountIn(m.objs[a].p, o) + Cardinality({pr \in m.objs[a].caps : pr[2] = o}) + SumOver(m, S \ {a}, o)
 RECURSIVE WSumOver(_, _, _)
 WSumOver(m, S, o) == IF S = {} THEN 0 ELSE LET a == CHOOSE x \in S : TRUE IN
                       CountIn(m.objs[a].w, o) + WSumOver(m, S \ {a}, o)
@@ -109,7 +112,9 @@ OnCall(m0, e) ==
   LET m == IF Depth(m0) = 0 THEN [m0 EXCEPT !.seen = {}] ELSE m0
       op == e.op
       o == Get(e, "o", 0)
-      fr == OpFrame(op, o, Get(e, "x", m.x), e, m.acfg)
+      fr0 == OpFrame(op, o, Get(e, "x", m.x), e, m.acfg)
+      \* clean(): remember whether the Cleaner was still there and whether the action had run
+      fr == IF op = "clean" /\ e.c \in DOMAIN m.acts /\ m.acts[e.c].a \notin m.cgone /\ m.acts[e.c].runs = 0 THEN [fr0 EXCEPT !.aux = 1] ELSE fr0
       harness(mm, c, msg) == Flag(mm, c, "HARNESS", msg)
       m1 ==
         CASE op \in {"new", "newcyc"} ->
@@ -121,6 +126,24 @@ OnCall(m0, e) ==
                IF Known(m, o) /\ m.objs[o].roots > 0
                THEN [m EXCEPT !.objs[o].roots = @ - 1, !.objs[o].infl = @ + 1]
                ELSE harness(m, TRUE, "drop of a handle the ghost does not know")
+          [] op = "glue" /\ e.k = "c" ->
+               IF Known(m, e.a) /\ <<e.i, o>> \in m.objs[e.a].caps /\ Known(m, o)
+               THEN [m EXCEPT !.objs[e.a].caps = @ \ {<<e.i, o>>}, !.objs[o].infl = @ + 1]
+               ELSE harness(m, TRUE, "drop of a captured pointer the ghost does not know")
+          [] op = "gluec" -> [m EXCEPT !.cgone = @ \cup {e.a}]     \* the drop of this Cleaner has begun
+          [] op = "register" ->
+               LET t == Get(e, "t", 0)
+                   mid == 100 + e.a
+                   m1a == IF t # 0 THEN (IF Known(m, t) /\ m.objs[t].roots > 0 /\ Known(m, e.a)
+                                       THEN [m EXCEPT !.objs[t].roots = @ - 1, !.objs[e.a].caps = @ \cup {<<e.c, t>>}]
+                                       ELSE harness(m, TRUE, "register captures a handle the ghost does not know")) ELSE m
+                   fresh == ~Known(m1a, mid) \/ (m1a.objs[mid].bs \in {"none", "freed"} /\ ~m1a.objs[mid].mlive /\ m1a.objs[mid].wroots = 0)
+               IN IF fresh THEN [m1a EXCEPT !.objs = (mid :> [NoObj EXCEPT !.vs = "pending", !.ismap = TRUE, !.armed = "any"]) @@ @] ELSE m1a
+          [] op = "dropcl" ->
+               LET c == e.c IN
+               IF c \in DOMAIN m.acts /\ Known(m, 100 + m.acts[c].a) /\ m.objs[100 + m.acts[c].a].wroots > 0
+               THEN [m EXCEPT !.objs[100 + m.acts[c].a].wroots = @ - 1]
+               ELSE harness(m, TRUE, "dropcl of unknown cleanable")
           [] op \in {"clear", "glue"} ->
                IF SlotOk(m, e.a, e.k, e.i) /\ SlotGet(m.objs[e.a], e.k, e.i) = o /\ Known(m, o)
                THEN [m EXCEPT !.objs[e.a] = SlotUpd(@, e.k, e.i, 0), !.objs[o].infl = @ + 1]
@@ -236,8 +259,8 @@ CanStartCollection == {"collect", "new", "newcyc", "register"}
 
 \* leftover garbage that is not justified by an untraced (pinning) field
 Unjustified(m) ==
-  LET L == {o \in Ids(m) : m.objs[o].vs = "live" /\ m.objs[o].bs = "live" /\ ~m.objs[o].tainted} \ Reach(m)
-      pins == UNION {Rng(m.objs[a].p) : a \in L} \ {0}
+  LET L == {o \in Ids(m) : m.objs[o].vs = "live" /\ m.objs[o].bs = "live" /\ ~m.objs[o].tainted /\ ~m.objs[o].ismap} \ Reach(m)
+      pins == UNION {Rng(m.objs[a].p) \cup CapTargets(m.objs[a]) : a \in L} \ {0}
   IN L \ Close(m, pins)
 
 OnRet(m00, e) ==
@@ -265,6 +288,9 @@ OnRet(m00, e) ==
                IF pan THEN [m0 EXCEPT !.objs[o].winfl = 0]
                ELSE [m0 EXCEPT !.objs[o].roots = @ + 1, !.objs[o].winfl = 0, !.objs[o].vs = IF @ = "uninit" THEN "live" ELSE @,
                                !.objs[o].w = IF fr.aux = 1 /\ Len(@) >= 1 THEN [@ EXCEPT ![1] = o] ELSE @]
+          [] op = "register" /\ ~pan ->
+               [m0 EXCEPT !.acts = (fr.c.c :> [a |-> fr.c.a, runs |-> 0, t |-> Get(fr.c, "t", 0)]) @@ @,
+                          !.objs[100 + fr.c.a].wroots = @ + 1]
           [] op = "savew" /\ ~pan /\ Known(m0, o) -> [m0 EXCEPT !.objs[o].wroots = @ + 1]
           [] op = "wprobe" /\ res = "some" /\ Known(m0, o) -> [m0 EXCEPT !.objs[o].roots = @ + 1]
           [] op = "setcfg" /\ ~pan -> [m0 EXCEPT !.acfg = [auto |-> fr.c.auto, pn |-> fr.c.pn, pd |-> fr.c.pd, bt |-> fr.c.bt]]
@@ -330,6 +356,11 @@ OnRet(m00, e) ==
                LET a1 == Flag(mL, inDestr /\ res # "fagain", "C12", "finalize_again did not panic inside a finalizer or destructor")
                    a2 == Flag(a1, ~inDestr /\ ~collOuter /\ ~CollRunning(m00) /\ res # "ok" /\ e.panic # "fagain", "C12", "finalize_again failed outside a collection")
                IN a2
+          [] op = "gluec" /\ ~pan /\ ~mL.faulted ->
+               LET late == {c \in DOMAIN mL.acts : mL.acts[c].a = fr.c.a /\ mL.acts[c].runs = 0}
+               IN Flag(mL, late # {}, "C10", "cleaning actions " \o ToString(late) \o " had not run when the drop of their Cleaner returned")
+          [] op = "clean" /\ ~pan ->
+               Flag(mL, fr.aux = 1 /\ fr.c.c \in DOMAIN mL.acts /\ mL.acts[fr.c.c].runs = 0 /\ ~mL.faulted, "C10", "clean() did not run its cleaning action although the Cleaner was alive")
           [] op = "wprobe" ->
                Flag(mL, res # "none" \/ Get(e, "wsc", 0) # 0, "C14", "the Weak given to the new_cyclic closure is not dead inside the closure")
           [] op = "newcyc" ->
@@ -371,7 +402,7 @@ OnRet(m00, e) ==
       \* ---- depth-0 checks
       clean0 == lim = 0 /\ ~pan /\ ~mM.faulted
       mMx == mM3
-      zero == {x \in Ids(mM3) : mM3.objs[x].vs = "live" /\ mM3.objs[x].bs = "live" /\ ~mM3.objs[x].tainted /\ Cnt(mM3, x) = 0}
+      zero == {x \in Ids(mM3) : mM3.objs[x].vs = "live" /\ mM3.objs[x].bs = "live" /\ ~mM3.objs[x].tainted /\ ~mM3.objs[x].ismap /\ Cnt(mM3, x) = 0}
       mN == Flag(mM3, clean0 /\ zero # {}, "C04", "objects without any Cc pointer were not reclaimed when their last owner was dropped: " \o ToString(zero))
       undead == {x \in Ids(mM3) : mM3.objs[x].vs = "dropped" /\ mM3.objs[x].bs = "live" /\ ~mM3.objs[x].tainted}
       mO == Flag(mN, clean0 /\ undead # {}, "C03", "allocation of a dropped value not released when the call returned: " \o ToString(undead))
@@ -385,7 +416,8 @@ OnRet(m00, e) ==
             ELSE mQ
       \* ---- forget objects that are completely gone
       gone == {x \in Ids(mR) : mR.objs[x].bs \in {"freed", "none"} /\ mR.objs[x].vs \in {"dropped", "none"} /\ ~mR.objs[x].mlive
-                               /\ mR.objs[x].roots = 0 /\ mR.objs[x].infl = 0 /\ Cnt(mR, x) = 0 /\ WCnt(mR, x) = 0}
+                               /\ mR.objs[x].roots = 0 /\ mR.objs[x].infl = 0 /\ Cnt(mR, x) = 0 /\ WCnt(mR, x) = 0 /\ mR.objs[x].caps = {}
+                               /\ ~(x + 100 \in Ids(mR) /\ mR.objs[x + 100].ismap)}
       mS == IF lim = 0 /\ gone # {} THEN [mR EXCEPT !.objs = [x \in DOMAIN @ \ gone |-> @[x]]] ELSE mR
   IN mS
 
@@ -395,7 +427,7 @@ OnCb(m, e) ==
       k == e.cb
       known == Known(m, o)
       ob == IF known THEN m.objs[o] ELSE NoObj
-      m0 == Flag(m, ~known, "HARNESS", "callback on unknown object")
+      m0 == Flag(m, ~known /\ k # "action", "HARNESS", "callback on unknown object")
   IN
   IF k = "trace" THEN
     LET m1 == Flag(m0, ~e.it, "C12", "is_tracing() is false during Trace::trace")
@@ -421,6 +453,14 @@ OnCb(m, e) ==
         m5 == Flag(m4, known /\ m.cfg.fin /\ ob.vs = "live" /\ ob.armed = "yes" /\ ~ob.tainted /\ ~m.faulted, "C05", "object " \o ToString(o) \o " dropped without having been finalized")
         m6 == IF known /\ ob.vs \in {"live", "moved", "pending"} THEN [m5 EXCEPT !.objs[o].vs = "dropped"] ELSE m5
     IN Push(BumpNcb(m6), CbFrame(k, o))
+  ELSE IF k = "action" THEN
+    LET c == o
+        kn == c \in DOMAIN m.acts
+        m1 == Flag(m, e.it, "C12", "is_tracing() is true inside a cleaning action")
+        m2 == Flag(m1, kn /\ m.acts[c].runs >= 1, "C10", "cleaning action " \o ToString(c) \o " ran more than once")
+        m3 == Flag(m2, Depth(m) > 0 /\ Top(m).k = "op" /\ Top(m).op = "dropcl", "C10", "dropping a Cleanable ran a cleaning action")
+        m4 == IF kn THEN [m3 EXCEPT !.acts[c].runs = @ + 1] ELSE Flag(m3, TRUE, "HARNESS", "unknown cleaning action")
+    IN Push(m4, CbFrame(k, o))
   ELSE Push(m0, CbFrame(k, o))
 
 \* a callback made directly by collect_cycles / Cc::new / new_cyclic (before its closure) / register comes from a collection
@@ -465,13 +505,13 @@ OnDealloc(m, e) ==
   IF b.k = "box" THEN
     LET unwrapping == Depth(m) > 0 /\ Top(m).k = "op" /\ Top(m).op = "unwrap" /\ Top(m).o = o
         m2 == Flag(m1, o \in Reach(m) /\ ob.vs = "live", "C01", "allocation of reachable object " \o ToString(o) \o " released")
-        m3 == Flag(m2, ~(ob.vs \in {"dropped", "uninit"} \/ (ob.vs = "live" /\ unwrapping)), IF ob.cyc /\ ob.vs = "live" THEN "C14" ELSE "C03", "allocation of object " \o ToString(o) \o " released while its value is " \o ob.vs)
+        m3 == Flag(m2, ~(ob.vs \in {"dropped", "uninit"} \/ ob.ismap \/ (ob.vs = "live" /\ unwrapping)), IF ob.cyc /\ ob.vs = "live" THEN "C14" ELSE "C03", "allocation of object " \o ToString(o) \o " released while its value is " \o ob.vs)
         m4 == Flag(m3, ob.mlive /\ WCntObs(m, o) = 0 /\ ~m.faulted, "C09", "side record of object " \o ToString(o) \o " not released with the allocation although no Weak exists")
-    IN [m4 EXCEPT !.objs[o].bs = "freed", !.bytes = @ - b.size, !.blocks = rest]
+    IN [m4 EXCEPT !.objs[o].bs = "freed", !.objs[o].vs = IF ob.ismap THEN "dropped" ELSE @, !.bytes = @ - b.size, !.blocks = rest]
   ELSE
     LET m2 == Flag(m1, WCntObs(m, o) > 0 /\ ~(ob.winfl = 1 /\ WCnt(m, o) = 0 /\ ob.bs = "freed"), "C09", "side record of object " \o ToString(o) \o " released while Weak pointers exist")
         unwrapping == Depth(m) > 0 /\ Top(m).k = "op" /\ Top(m).op = "unwrap" /\ Top(m).o = o
-        m3 == Flag(m2, ob.bs = "live" /\ ob.vs = "live" /\ ~unwrapping, "C09", "side record of object " \o ToString(o) \o " released while the value is alive")
+        m3 == Flag(m2, ob.bs = "live" /\ ob.vs = "live" /\ ~unwrapping /\ ~ob.ismap, "C09", "side record of object " \o ToString(o) \o " released while the value is alive")
     IN [m3 EXCEPT !.objs[o].mlive = FALSE, !.objs[o].mblk = 0, !.blocks = rest]
 
 \* ------------------------------------------------------------------ the fold
